@@ -109,7 +109,7 @@ func (n *v2node) op(op string) string {
 		}
 		wb, err := types.BlockFromProto(pb)
 		if err != nil {
-			return "decode-error"
+			return "rejected" // the reactor drops what does not decode; the processor never sees it
 		}
 		return ev(func() string { return n.pc.BlockReceived(pid(int(p)), wb) })
 	case "v2nil":
